@@ -260,6 +260,105 @@ class LoopContinue(ast.NodeTransformer):
     visit_While = _loop
 
 
+def parameters_renamed_factory(source_texts):
+    """Rename every parameter that is never passed by keyword anywhere in the package (so no call site
+    changes meaning), except self / cls, *args / **kwargs, the parameters of plugin callbacks and of
+    functions whose signature is part of a protocol (same name defined in several classes)."""
+    keyword_names = set()
+    definitions = {}
+    for text in source_texts:
+        tree = ast.parse(text)
+        for node in ast.walk(tree):
+            if isinstance(node, ast.Call):
+                keyword_names.update(k.arg for k in node.keywords if k.arg)
+            elif isinstance(node, (ast.FunctionDef, ast.AsyncFunctionDef)):
+                definitions[node.name] = definitions.get(node.name, 0) + 1
+
+    class Params(ast.NodeTransformer):
+        def visit_FunctionDef(self, node: ast.FunctionDef) -> ast.AST:
+            self.generic_visit(node)
+            if definitions.get(node.name, 0) != 1 or not node.name.startswith("__") or node.name.endswith("__"):
+                return node  # only private functions with a package-unique name
+            arguments = node.args.posonlyargs + node.args.args + node.args.kwonlyargs
+            rename = {a.arg: a.arg + "_zp" for a in arguments if a.arg not in ("self", "cls") and a.arg not in keyword_names}
+            if not rename:
+                return node
+            nested_names = set()
+            for sub in ast.walk(node):
+                if sub is not node and isinstance(sub, (ast.FunctionDef, ast.AsyncFunctionDef, ast.Lambda)):
+                    nested_args = sub.args.posonlyargs + sub.args.args + sub.args.kwonlyargs
+                    nested_names.update(a.arg for a in nested_args)
+            rename = {k: v for k, v in rename.items() if k not in nested_names}
+            for argument in arguments:
+                if argument.arg in rename:
+                    argument.arg = rename[argument.arg]
+            for sub in ast.walk(node):
+                if isinstance(sub, ast.Name) and sub.id in rename:
+                    sub.id = rename[sub.id]
+            return node
+
+    return _by_transformer(Params)
+
+
+def all_parameters_renamed_factory(source_texts):
+    """Rename every parameter of every function whose name is unique in the package (public ones too),
+    together with the keywords of every call of a function of that name.  Functions whose name is defined
+    more than once (plugin callbacks, overrides, __init__) keep their parameters."""
+    definitions = {}
+    trees = []
+    for text in source_texts:
+        tree = ast.parse(text)
+        trees.append(tree)
+        for node in ast.walk(tree):
+            if isinstance(node, (ast.FunctionDef, ast.AsyncFunctionDef)):
+                definitions[node.name] = definitions.get(node.name, 0) + 1
+    unique = {name for name, count in definitions.items() if count == 1 and not (name.startswith("__") and name.endswith("__"))}
+    parameters = {}
+    for tree in trees:
+        for node in ast.walk(tree):
+            if isinstance(node, (ast.FunctionDef, ast.AsyncFunctionDef)) and node.name in unique:
+                parameters[node.name] = {a.arg for a in node.args.posonlyargs + node.args.args + node.args.kwonlyargs} - {"self", "cls"}
+
+    class Params(ast.NodeTransformer):
+        def visit_FunctionDef(self, node: ast.FunctionDef) -> ast.AST:
+            self.generic_visit(node)
+            if node.name not in unique:
+                return node
+            arguments = node.args.posonlyargs + node.args.args + node.args.kwonlyargs
+            rename = {a.arg: a.arg + "_zp" for a in arguments if a.arg not in ("self", "cls")}
+            nested_names = set()
+            for sub in ast.walk(node):
+                if sub is not node and isinstance(sub, (ast.FunctionDef, ast.AsyncFunctionDef, ast.Lambda)):
+                    nested_names.update(a.arg for a in sub.args.posonlyargs + sub.args.args + sub.args.kwonlyargs)
+            if rename.keys() & nested_names:
+                return node
+            for argument in arguments:
+                if argument.arg in rename:
+                    argument.arg = rename[argument.arg]
+            for sub in ast.walk(node):
+                if isinstance(sub, ast.Name) and sub.id in rename:
+                    sub.id = rename[sub.id]
+            return node
+
+        def visit_Call(self, node: ast.Call) -> ast.AST:
+            self.generic_visit(node)
+            name = node.func.attr if isinstance(node.func, ast.Attribute) else node.func.id if isinstance(node.func, ast.Name) else ""
+            if name in parameters:
+                for keyword in node.keywords:
+                    if keyword.arg in parameters[name]:
+                        keyword.arg = keyword.arg + "_zp"
+            return node
+
+    def apply(text: str) -> str:
+        tree = ast.parse(text)
+        # keep the functions this transformer refuses (nested parameter clash) consistent: collect them first
+        tree = Params().visit(tree)
+        ast.fix_missing_locations(tree)
+        return ast.unparse(tree)
+
+    return apply
+
+
 def _by_transformer(transformer_class):
     def apply(text: str) -> str:
         tree = transformer_class().visit(ast.parse(text))
@@ -280,10 +379,18 @@ TRANSFORMS = {
     "condtemp": ("every if-test first stored in a local", _by_transformer(ConditionThroughLocal)),
     "nest": ("every 'if a and b' without else split into nested ifs", _by_transformer(NestConjunctions)),
     "continue": ("every loop body that is one if-block turned into 'if not c: continue'", _by_transformer(LoopContinue)),
+    "params": ("every parameter of a private function that is never passed by keyword renamed", None),
+    "params2": ("every parameter of every uniquely named function renamed, keywords at its call sites included", None),
 }
 
 
 def transformed_overlay(source: Source, name: str, files=None):
+    if name == "params":
+        function = parameters_renamed_factory([source.read(rel, raw=True) for rel in source.python_files()])
+        return {rel: function(source.read(rel, raw=True)) for rel in (files or source.python_files())}
+    if name == "params2":
+        function = all_parameters_renamed_factory([source.read(rel, raw=True) for rel in source.python_files()])
+        return {rel: function(source.read(rel, raw=True)) for rel in (files or source.python_files())}
     function = TRANSFORMS[name][1]
     return {rel: function(source.read(rel, raw=True)) for rel in (files or source.python_files())}
 
